@@ -18,11 +18,11 @@ CLAIMS = {
 
 CLAIMS['C12'] = (
     'call-site error-discipline analysis: path-sensitive abstract interpretation (sign/class domain) of every '
-    'caller of the I/O-failure closure; -Werror=unused-result compile-fail witness; write-retry continuation rule (result symbols, bounded unrolling)',
+    'caller of the I/O-failure closure; -Werror=unused-result compile-fail witness; write-retry continuation rule (result symbols, bounded unrolling); short-count-only-at-EOF contract of the read wrapper by linear path values and Fourier-Motzkin',
     'static analysis: for each of ~170 call sites whose callee can fail because of read/write/lseek/ftruncate, '
     'follows the failure classes of the callee\'s return convention (and short counts of read()/write()) through '
     'the caller on all CFG paths and shows they cannot reach a success exit; callee-side convention check; '
-    'compile-fail witness for dropped must-check results; C12-e: a retried write passes source + result and count - result. Decides the error-propagation mechanism of C12 in '
+    'compile-fail witness for dropped must-check results; C12-e: a retried write passes source + result and count - result. C12-f: read_data() returns fewer bytes than requested only behind a read() == 0 edge. Decides the error-propagation mechanism of C12 in '
     'library and tools, not faults inside dependencies, close() results or deferred ENOSPC.',
     'trusted: clang 14 front end; frozen return-convention table (checked against inferred return classes); '
     'external summaries of read/write/lseek/ftruncate; value classes {-1,<-1,0,1,>1}')
